@@ -5,7 +5,7 @@
 Require Extraction.
 Require Import ExtrOcamlBasic.
 From Coq Require Import ZArith NArith List.
-From RQ Require Import Base Apply ApplySpec Distributor Parser Writer Quilt DiffCheck.
+From RQ Require Import Base Apply ApplySpec Distributor Parser Writer Quilt DiffCheck DiffGen.
 
 Definition dist_N := Distributor.distribute N N.eqb.
 Definition classes_ok_N := Distributor.classes_ok N N.eqb.
@@ -14,7 +14,8 @@ Definition rollback_N := Apply.rollback N N.eqb.
 Definition placements_ok_N := ApplySpec.placements_ok N N.eqb.
 Definition rewrite_ok_N := ApplySpec.rewrite_ok N N.eqb.
 Definition apply_B := Apply.apply bytes bytes_eqb.
+Definition hunks_of_B := DiffGen.hunks_of bytes.
 
 Extraction "model.ml" dist_N classes_ok_N apply_N rollback_N placements_ok_N rewrite_ok_N
   parse_patch write_patch write_rej strip_path is_unsafe components
-  cmd_push normalize read_series split_lines concat_lines c01_check apply_B to_fpatch.
+  cmd_push normalize read_series split_lines concat_lines c01_check apply_B to_fpatch hunks_of_B.
